@@ -17,7 +17,7 @@ for commit, prop, key in fixed:
     patch = subprocess.run(["git", "-C", "/repo", "diff", commit, commit + "~1", "--", "mysql_mimic"], stdout=subprocess.PIPE).stdout
     p = subprocess.run(["git", "-C", "/repo", "apply", "--3way", "-"], input=patch, stdout=subprocess.PIPE, stderr=subprocess.STDOUT)
     if p.returncode != 0:
-        subprocess.run("git -C /repo checkout -- . ; git -C /repo reset -q", shell=True)
+        subprocess.run("git -C /repo reset -q --hard", shell=True)      # (a failed 3-way apply leaves unmerged paths in the index)
         print(f"{prop} {commit} {key}: reverse patch does not apply on top of later fixes (skipped)")
         continue
     try:
